@@ -15,6 +15,7 @@ the clock is the one of the long run after its k-th result.
 import contextlib
 import io
 import itertools
+import json
 import weakref
 
 from harness.common import exc_name, jdump
@@ -71,6 +72,7 @@ LIMIT = 1500        # an "infinite" input gives up after this many values (Runaw
 FUEL = LIMIT + 200  # loop bound given to the model
 REF_PREFIX = 400    # the reference computation sees this prefix of an infinite input
 MAXRES = 400        # the long run of a case stops after this many results
+SPEC_PREFIX = 60    # the Lean specification of an infinite-input case is evaluated on this prefix
 
 
 # ----------------------------------------------------------------------------------------
@@ -198,18 +200,36 @@ def build_el(st, uid):
     if t == "count":
         return lena.flow.Count(st["name"], st["c0"])
     if t == "runif":
-        return lena.flow.RunIf(mk_selector(st["p"]), *[build_el(s, uid) for s in st["inner"]])
+        inner = [build_el(s, uid) for s in st["inner"]]
+        if st.get("seqarg"):
+            # the other accepted form: a Selector object and one Sequence
+            return lena.flow.RunIf(lena.flow.Selector(mk_selector(st["p"])), lena.core.Sequence(*inner))
+        return lena.flow.RunIf(mk_selector(st["p"]), *inner)
     if t == "split":
         brs = []
         for b in st["branches"]:
             if b["k"] == "seq":
                 els = tuple(build_el(s, uid) for s in b["stages"])
-                brs.append(els[0] if len(els) == 1 and b.get("bare") else els)
+                if b.get("explicit"):
+                    brs.append(lena.core.Sequence(*els))
+                else:
+                    brs.append(els[0] if len(els) == 1 and b.get("bare") else els)
+            elif b["k"] == "src":
+                vals = [Val(b["base"] + i) for i in range(b["m"])]
+                if b.get("pairs"):
+                    vals = [(v, {}) for v in vals]
+                brs.append(lena.core.Source(lambda vals=vals: iter(vals)))
             else:
-                els = [build_el(s, uid) for s in b["pre"]]
+                els = []
+                for s in b["pre"]:
+                    if s["t"] == "count":
+                        # a bare Count would itself be taken as the fill/compute element
+                        els.append(lena.core.FillInto(lena.flow.Count(s["name"], s["c0"])))
+                    else:
+                        els.append(build_el(s, uid))
                 els.append(lena.flow.Count(b["name"], b["c0"]))
                 els.extend(build_el(s, uid) for s in b["post"])
-                brs.append(tuple(els))
+                brs.append(lena.core.FillComputeSeq(*els) if b.get("explicit") else tuple(els))
         return lena.core.Split(brs, bufsize=st["bufsize"], copy_buf=st["copy"])
     raise ValueError(t)
 
@@ -334,6 +354,8 @@ def _strip(st):
         for b in st["branches"]:
             if b["k"] == "seq":
                 brs.append({"k": "seq", "stages": [_strip(s) for s in b["stages"]]})
+            elif b["k"] == "src":
+                brs.append({"k": "src", "m": b["m"], "base": b["base"]})
             else:
                 brs.append({"k": "fc", "pre": [_strip(s) for s in b["pre"]], "name": b["name"], "c0": b["c0"],
                             "post": [_strip(s) for s in b["post"]]})
@@ -346,8 +368,11 @@ def model_requests(case):
     k = case["K"]
     reqs = [{"op": "run", "stages": stages, "n": case["n"], "k": MAXRES if k is None else k, "fuel": FUEL}]
     if case["n"] is not None:
-        reqs.append({"op": "spec", "stages": stages, "n": case["n"]})
+        reqs.append({"op": "spec", "stages": stages, "n": case["n"], "fuel": FUEL})
         reqs.append({"op": "den", "stages": stages, "n": case["n"]})
+    else:
+        # pipeline_lazy_infinite: the specification on a prefix of the infinite input
+        reqs.append({"op": "spec", "stages": stages, "n": SPEC_PREFIX, "fuel": FUEL})
     return reqs
 
 
@@ -357,6 +382,21 @@ def compare(case, res, replies):
         return f"model driver error: {m['err']}"
     if res["built"] != m["built"]:
         return f"clock after building: impl {res['built']} vs model {m['built']}"
+    if not m.get("wf", True):
+        return "a generated stage does not satisfy Stage.wfb (the hypothesis of the theorems)"
+    if m.get("cap") != _caps(case["stages"])[0]:
+        return f"documented buffer sizes: Lean seqCap {m.get('cap')} vs harness {_caps(case['stages'])[0]}"
+    if case["n"] is None and len(replies) > 1 and "err" not in replies[1]:
+        # the statement of pipeline_lazy_infinite, evaluated: what the consumer asked for is settled within the
+        # prefix => the run over the infinite input is the specification on the prefix
+        sp = replies[1]
+        k = case["K"]
+        nd = 0 if k == 0 else (sp["r"][k - 1][2] if k <= len(sp["r"]) else sp["cf"])
+        if nd <= SPEC_PREFIX and sp.get("fuelok"):
+            want_end = "stopped" if k <= len(sp["r"]) else "exhausted"
+            if res["r"] != sp["r"][:k] or res["end"] != want_end or res["clock"] != nd:
+                return (f"Lean specification on the first {SPEC_PREFIX} values {sp['r'][:k]} end {want_end}@{nd} differs "
+                        f"from the run over the infinite input {res['r']} {res['end']}@{res['clock']}")
     if res["end"] == "runaway":
         # the input gave up: the model must have got at least as far, and must not have finished
         if m["r"][:len(res["r"])] != res["r"]:
@@ -368,7 +408,7 @@ def compare(case, res, replies):
         return f"trace (value, context, clock): impl {res['r']} vs model {m['r']}"
     if res["end"] != m["end"] or res["clock"] != m["clock"]:
         return f"end: impl {res['end']}@{res['clock']} vs model {m['end']}@{m['clock']}"
-    if len(replies) > 1 and res["end"] == "exhausted":
+    if case["n"] is not None and len(replies) > 2 and res["end"] == "exhausted":
         sp, dn = replies[1], replies[2]
         if "err" in sp or "err" in dn:
             return f"model driver error: {sp} {dn}"
@@ -487,6 +527,7 @@ def ref_split(st, sf, state):
         return sf
     bufsize = st["bufsize"]
     active = [(b, _RefFc(b, state) if b["k"] == "fc" else None) for b in brs]
+    srcvals = lambda b: [(b["base"] + i, {}) for i in range(b["m"])]
     out = []
     blocks = []
     if bufsize is None:
@@ -499,7 +540,10 @@ def ref_split(st, sf, state):
     for blk, stamp in blocks:
         nxt = []
         for b, fc in active:
-            if fc is None:
+            if b["k"] == "src":
+                # a Source ignores the flow: its complete flow comes with the first block, then it is dropped
+                out.extend((v, stamp) for v in srcvals(b))
+            elif fc is None:
                 out.extend((v, stamp) for v in ref_den(b["stages"], [v for v, _ in blk], state))
                 nxt.append((b, fc))
             else:
@@ -515,7 +559,9 @@ def ref_split(st, sf, state):
                     nxt.append((b, fc))
         active = nxt
     for b, fc in active:
-        if fc is not None:
+        if b["k"] == "src":
+            out.extend((v, cf) for v in srcvals(b))
+        elif fc is not None:
             out.extend((v, cf) for v in fc.compute())
         elif not blocks:
             out.extend((v, cf) for v in ref_den(b["stages"], [], state))
@@ -573,7 +619,8 @@ def reference(case):
     m = REF_PREFIX if n is None else n
     sf = (0, [((i, {}), i + 1) for i in range(m)], m + 1)
     state = {}
-    for st in case["stages"]:
+    # (a fresh copy: the counters of Count elements are keyed by descriptor object, and one descriptor may occur twice)
+    for st in json.loads(json.dumps(case["stages"])):
         sf = ref_stage(st, sf, state)
     return sf, m + 1
 
@@ -593,6 +640,8 @@ def _caps(stages):
         elif t == "count":
             cap += 1
         elif t == "split":
+            if not st["branches"]:
+                continue                  # Split([]) passes the flow through
             if st["bufsize"] is None:
                 return None, cnt
             # the block being read plus the block just processed (still bound to `orig_buf`)
@@ -683,6 +732,8 @@ def describe(case):
             for b in st["branches"]:
                 if b["k"] == "seq":
                     bs.append("(" + ",".join(d(s) for s in b["stages"]) + ")")
+                elif b["k"] == "src":
+                    bs.append(f"Source({b['m']} values)")
                 else:
                     bs.append("(" + ",".join([d(s) for s in b["pre"]] + [f"Count({b['name']},{b['c0']})"] +
                                              [d(s) for s in b["post"]]) + ")")
@@ -745,11 +796,11 @@ def g_count(rng, names):
     return {"t": "count", "name": "c%d" % next(names) if rng.random() < 0.8 else "count", "c0": rng.choice([0, 0, 0, 5])}
 
 
-def g_stateless(rng, pairs, depth, names=None):
+def g_stateless(rng, pairs, depth, names=None, direct_count=True):
     """an element for the inner sequence of a RunIf / a sequence-type branch of a Split; with `names` a Count is
-    allowed (only in a RunIf of the main pipeline: there one element object serves the whole run)"""
+    allowed (directly only inside a RunIf: in a branch of a Split it would make the branch fill/compute)"""
     r = rng.random()
-    if names is not None and r < 0.2:
+    if names is not None and direct_count and r < 0.2:
         return g_count(rng, names)
     if r < 0.4:
         return g_map(rng, pairs)
@@ -761,7 +812,7 @@ def g_stateless(rng, pairs, depth, names=None):
 
 
 def g_runif(rng, pairs, depth, names=None):
-    return {"t": "runif", "p": rng.choice(PREDS),
+    return {"t": "runif", "p": rng.choice(PREDS), "seqarg": rng.random() < 0.25,
             "inner": [g_stateless(rng, pairs, depth, names) for _ in range(rng.randint(0, 2))]}
 
 
@@ -769,9 +820,12 @@ def g_split(rng, pairs, names, infinite=False):
     nb = rng.choice([0, 1, 1, 2, 2, 3])
     brs = []
     for _ in range(nb):
-        if rng.random() < 0.55:
-            stages = [g_stateless(rng, pairs, 1) for _ in range(rng.randint(1, 2))]
-            brs.append({"k": "seq", "stages": stages, "bare": rng.random() < 0.3})
+        r0 = rng.random()
+        if r0 < 0.5:
+            stages = [g_stateless(rng, pairs, 1, names, direct_count=False) for _ in range(rng.randint(1, 2))]
+            brs.append({"k": "seq", "stages": stages, "bare": rng.random() < 0.3, "explicit": rng.random() < 0.2})
+        elif r0 < 0.58:
+            brs.append({"k": "src", "m": rng.randint(0, 3), "base": 100 * (1 + next(names)), "pairs": pairs})
         else:
             pre = []
             for _ in range(rng.randint(0, 2)):
@@ -780,12 +834,16 @@ def g_split(rng, pairs, names, infinite=False):
                     pre.append(g_map(rng, pairs, plain=True))
                 elif r < 0.5:
                     pre.append(g_filter(rng))
-                else:
-                    # (a Count here would itself be taken as the fill/compute element by FillComputeSeq)
+                elif r < 0.9:
                     pre.append(g_slice(rng, nonneg=True, hi=5))
+                else:
+                    # Count.fill_into, wrapped in FillInto (a bare Count would be taken as the fill/compute element)
+                    pre.append(g_count(rng, names))
             post = [g_map(rng, pairs, plain=True)] if rng.random() < 0.3 else []
-            brs.append({"k": "fc", "pre": pre, "name": "n%d" % next(names), "c0": rng.choice([0, 0, 3]), "post": post})
-    bufsize = rng.choice([1, 2, 3, 4, 5]) if infinite else rng.choice([1, 2, 3, 4, 5, None, 1000])
+            brs.append({"k": "fc", "pre": pre, "name": "n%d" % next(names), "c0": rng.choice([0, 0, 3]), "post": post,
+                        "explicit": rng.random() < 0.2})
+    # bufsize=None materialises the flow: over an infinite input it never returns (documented)
+    bufsize = rng.choice([1, 2, 3, 4, 5] * 4 + [None]) if infinite else rng.choice([1, 2, 3, 4, 5, None, 1000])
     return {"t": "split", "bufsize": bufsize, "copy": True if rng.random() < 0.8 else False, "branches": brs}
 
 
@@ -876,7 +934,7 @@ def fixed_cases(tier):
 def gen_cases(ctx):
     rng = ctx.rng
     tier = ctx.tier
-    cases = fixed_cases(tier)
+    yield from fixed_cases(tier)
     # every Slice with start, stop in {None, -3..3} and step in {None, 1, 2}, alone, over flows of 0..6 values
     idx = [None, -3, -2, -1, 0, 1, 2, 3]
     lens = [0, 1, 2, 3, 4, 6] if tier == "quick" else list(range(0, 9))
@@ -887,19 +945,18 @@ def gen_cases(ctx):
                     continue
                 for n in lens:
                     st = {"t": "slice", "start": a, "stop": b, "step": s, "form": 3}
-                    cases.append(mk_case([st], n, ks=[0, 1, n + 1] if tier == "quick" else list(range(n + 2))))
+                    yield mk_case([st], n, ks=[0, 1, n + 1] if tier == "quick" else list(range(n + 2)))
     # every ordered pair of the palette
     for s1 in PALETTE:
         for s2 in PALETTE:
             if s1["t"] == "count" and s2["t"] == "count":
                 s2 = dict(s2, name="c2")
             for n in ((0, 1, 3, 7) if tier == "quick" else (0, 1, 2, 3, 5, 7, 9)):
-                cases.append(mk_case([s1, s2], n, ks=[0, 1, 2] if tier == "quick" else list(range(n + 2))))
-            cases.append(mk_case([s1, s2], None, K=4, ks=[0, 2]))
+                yield mk_case([s1, s2], n, ks=[0, 1, 2] if tier == "quick" else list(range(n + 2)))
+            yield mk_case([s1, s2], None, K=4, ks=[0, 2])
     nrand = 4000 if tier == "quick" else 60000
     for _ in range(nrand):
-        cases.append(random_case(rng, tier))
-    return cases
+        yield random_case(rng, tier)
 
 
 def search_cases(ctx):
@@ -980,7 +1037,6 @@ ASSUMPTIONS = [
     "values are observed through their integer datum and integer-valued top-level context entries; Print, Context, "
     "UpdateContext, MakeFilename are the identity on that projection",
     "object lifetime (weak references) is checked on the real code only; it is not part of the Lean model",
-    "a RunIf inside a branch of a Split contains no Count (the model gives such a branch no state between blocks)",
 ]
 LEVEL_TEXT = ("Lean 4 theorems about pull-based generator models of the streaming elements, for all pipelines, inputs and "
               "consumer stop points (no bound), tied to /repo by an event-trace correspondence check and a direct "
